@@ -450,6 +450,17 @@ func awCustomMasq(rw http.ResponseWriter, r *http.Request) {
 	rw.Header().Set("X-Masq-Path", r.URL.Path)
 	rw.Header().Set("X-Masq-Query", r.URL.RawQuery)
 	rw.Header().Set("X-Masq-Hy", strings.Join(awHyHeaders(r.Header), ";"))
+	nBig, bytesBig := 0, 0
+	for k, vs := range r.Header {
+		lk := strings.ToLower(k)
+		if lk == "cookie" || strings.HasPrefix(lk, "x-big") || strings.HasPrefix(lk, "x-small") {
+			for _, v := range vs {
+				nBig++
+				bytesBig += len(v)
+			}
+		}
+	}
+	rw.Header().Set("X-Masq-Big", fmt.Sprintf("%d/%d", nBig, bytesBig))
 	rw.Header().Set("Content-Type", "text/html; charset=utf-8")
 	if st == 301 {
 		rw.Header().Set("Location", "https://"+r.Host+"/moved")
